@@ -148,7 +148,10 @@ func (p *Program) resolveRoles() {
 	// lexer
 	p.aliasByType("lexer", "Lexer", "ch", isBasicKind(types.Int32))
 	p.aliasByType("lexer", "Lexer", "characters", func(t types.Type) bool { return isSliceOf(t, isBasicKind(types.Int32)) })
-	p.aliasByType("lexer", "Lexer", "prevToken", func(t types.Type) bool { return isNamed(t, "token", "Token") && !isPointer(t) })
+	p.aliasByType("lexer", "Lexer", "prevToken", func(t types.Type) bool {
+		// the previous token, or just its kind
+		return (isNamed(t, "token", "Token") || isNamed(t, "token", "Type")) && !isPointer(t)
+	})
 	p.lexerPositionRoles()
 	// package variables and functions named in tables of listed exceptions
 	p.nameRoles()
